@@ -7,14 +7,15 @@ specs/codec/DotAbstract.tla  abstract DOT structure over a quoting-hostile strin
 specs/codec/NQuadsAbstract.tla  abstract N-Quads statement content over hostile literal texts (print then parse = identity)
 specs/codec/TokenCorrupt.tla  single-token corruptions of DOT / N-Quads documents (decoder totality only)
 specs/codec/HllState.tla     HyperLogLog sketch state, Marshal/Unmarshal/Union/SetHash rules, malformed-field grid
-specs/codec/PrngStream.tla   generator = place in a reference stream; PrngStreamTrace.tla validates recorded histories
+specs/codec/PrngStream.tla   generator = place in an output stream + opaque byte tokens; PrngHist.tla enumerates histories
+                             (spec->code), PrngStreamTrace.tla validates recorded histories (code->spec)
 
 R1  TLC checks the specifications' own theorems (round trips, normal forms, totality of the decision
     tables, Iso is an equivalence) on every enumerated case.
 R2  spec->code: TLC prints every case of the bounded spaces with the expected bytes / classification /
     decoded value / equivalence classes; the Go harness feeds them to the real encoders and decoders.
-R3  code->spec: histories of output / MarshalBinary / UnmarshalBinary calls of the real PRNGs are recorded
-    and validated by TLC against PrngStreamTrace.
+R3  code->spec: histories of construction / Seed / output / MarshalBinary / UnmarshalBinary calls of the real
+    PRNGs (and every truncation of a saved state) are recorded and validated by TLC against PrngStreamTrace.
 """
 import json
 import os
@@ -32,10 +33,10 @@ def g6(ctx, bins, name, directed, modes, maxn=0, maxlen=0, alphabet=A8, bigns="{
         ctx.replay(b, "codec-graph6", cases, list(args), name="R2 replay %s [%s]" % (name, bn))
 
 
-def run_graph6(ctx, bins):
+def run_graph6(ctx, bins, dirs=(False, True)):
     thorough = ctx.tier == "thorough"
     idm = ["idmaps=identity,spread,neg,extreme"]
-    for d in (False, True):
+    for d in dirs:
         fam = "digraph6" if d else "graph6"
         # every graph of order <= MaxN and a seed-dependent family of orders around the size-field width change
         # at n = 63: Encode bytes, decode as a graph, re-encode
@@ -97,7 +98,9 @@ def run_dot(ctx, bins):
     thorough = ctx.tier == "thorough"
     spec, cfg = "codec/DotAbstract.tla", "codec/DotAbstract.cfg"
     runs = [("roles", "every pool string in every role", 0, 1), ("shapes", "all graphs on 3 seed-chosen hostile names", 0, 1),
-            ("multi", "multigraphs: every multiset of <= 3 lines between two hostile names", 0, 1)]
+            ("multi", "multigraphs: every multiset of <= 3 lines between two hostile names", 0, 1),
+            ("ports", "both ends ported: 81 port/compass combinations x stored orientation x reversal rule x graph kind, "
+                      "simple and multi (1-2 lines), directed and undirected", 0, 1)]
     if thorough:
         runs += [("pairs", "pairs of hostile names, shard %d/4" % i, i, 4) for i in range(4)]
     else:
@@ -141,13 +144,40 @@ def run_hll(ctx, bins):
             ctx.replay(b, "codec-hll", cases, name="R2 replay hll%d [%s]" % (w, bn))
 
 
+PRNG_FAMILIES = [
+    # block size in stream units, generator types, ways of drawing the units
+    (624, ["MT19937"], [[], ["draw=pairs"]]),
+    (312, ["MT19937_64"], [[]]),
+    (5, ["SplitMix64", "Xoshiro256plus", "Xoshiro256plusplus", "Xoshiro256starstar"], [[]]),
+]
+
+
 def run_prng(ctx, bins):
     thorough = ctx.tier == "thorough"
-    ctx.tlc("codec/PrngStream.tla", "codec/PrngStream.cfg", subst=dict(MAXN=4), workers=4,
-            name="R1 PrngStream: 2 generators, 1 slot, 2 streams, positions <= 4")
+    # R1: the abstract machine (place in a stream, byte tokens) keeps its invariants
+    maxn = 3 if thorough else 2
+    ctx.tlc("codec/PrngStream.tla", "codec/PrngStream.cfg", subst=dict(MAXN=maxn, MAXTOK=maxn, STREAMS="{1, 2}"), workers=4, timeout=1500,
+            name="R1 PrngStream: 2 generators, 1 slot, default + 2 seeded streams, positions <= %d, byte tokens <= %d" % (maxn, maxn))
+    # R2: every history = prepared configuration (36: generator 1 unseeded or at index 0, 1, B-1, B, B+1 of its block;
+    # generator 2 absent, new, zero value or on another stream) followed by Free arbitrary operations, in which a
+    # Restore happens
+    plans = [(3, 0, 1)] + ([(4, ctx.seed % 4, 4)] if thorough else [])
+    for blk, kinds, variants in PRNG_FAMILIES:
+        for free, shard, nshards in plans:
+            what = "block %d, 36 prepared configurations x every %d free operations" % (blk, free)
+            if nshards > 1:
+                what += ", configurations shard %d/%d (by seed)" % (shard, nshards)
+            cases = ctx.gen("codec/PrngHist.tla", "codec/PrngHist.cfg",
+                            subst=dict(B=blk, FREE=free, TAIL=blk + 2, SHARD=shard, NSHARDS=nshards, EMIT="TRUE"),
+                            name="R1+R2 gen prng histories (%s)" % what)
+            for bn, b in bins.items():
+                for v in variants:
+                    ctx.replay(b, "codec-prnghist", cases, ["kinds=" + ",".join(kinds)] + v,
+                               name="R2 replay prng histories %s %s, %d free operations [%s]" % ("+".join(kinds), " ".join(v), free, bn))
+    # R3: long random histories over 4 generators and 6 slots, every truncation and a few extensions of a state
     for bn, b in bins.items():
         tr = os.path.join(ctx.work, "prng-%s.ndjson" % bn)
-        summ = ctx.record(b, "codec-prng", tr, ["steps=%d" % (6000 if thorough else 2500)], name="R3 record prng histories [%s]" % bn)
+        summ = ctx.record(b, "codec-prng", tr, ["steps=%d" % (2000 if thorough else 600)], name="R3 record prng histories [%s]" % bn)
         ok, st = ctx.validate("codec/PrngStreamTrace.tla", "codec/PrngStreamTrace.cfg", tr, name="R3 validate prng histories [%s]" % bn)
         if ok:
             ctx.traces += summ.get("traces", 0)
@@ -164,14 +194,16 @@ def run(ctx):
     builds = [("default", "")]
     bins = {n: ctx.build(t) for n, t in builds}
 
-    run_graph6(ctx, bins)
-    run_mat(ctx, bins)
-    run_rdf(ctx, bins)
-    run_dot(ctx, bins)
-    run_nquads(ctx, bins)
-    run_total(ctx, bins)
-    run_hll(ctx, bins)
-    run_prng(ctx, bins)
+    def small_families():
+        run_mat(ctx, bins)
+        run_dot(ctx, bins)
+        run_nquads(ctx, bins)
+        run_total(ctx, bins)
+        run_hll(ctx, bins)
+
+    # independent families side by side (the generators are single-threaded TLC runs)
+    ctx.parallel([lambda: run_graph6(ctx, bins, (False,)), lambda: run_graph6(ctx, bins, (True,)),
+                  lambda: run_rdf(ctx, bins), small_families, lambda: run_prng(ctx, bins)], width=5)
 
     ctx.assumptions += [
         "TLC/SANY and the CommunityModules Json module are trusted",
